@@ -1,12 +1,16 @@
 /-
 Driver ops of the deepcopy / clone family (C05).
-  op <id> deepcopy <T> <src> <dstPrior>   → model=<dst after, canonical>;eq=<b>;alias=<b>;src=1
+  op <id> deepcopy <T> <src> <dstPrior>   → model=<dst after, canonical>;eq=<b>;shape=<b>;alias=<b>;src=1
   op <id> clone <T> <src>                 → same for the returned value
+  (deepcopyx = deepcopy on arguments outside the property's precondition)
+eq = Spec.structEq (Go's equality, what reflect.DeepEqual says in the harness), shape = Spec.shapeEq (same
+nil-ness, lengths and bits; rt.ShapeEqual in the harness).
 -/
 import GoderiveModel.U.Wire
 import GoderiveModel.U.Canon
 import GoderiveModel.S.DeepCopy
 import GoderiveModel.Spec.StructEq
+import GoderiveModel.Spec.ShapeEq
 import Driver.State
 
 open Goderive
@@ -36,7 +40,7 @@ def answer (env : Env) (T : Ty) (src : Val) (r : Res (Val × Nat)) : String :=
     let ds := strs.getD 1 "?"
     let so := memObjs src
     let alias := (memObjs d).any fun o => so.contains o
-    s!"model={ds};eq={b01 (Spec.structEq env T src d)};alias={b01 alias};src=1"
+    s!"model={ds};eq={b01 (Spec.structEq env T src d)};shape={b01 (Spec.shapeEq env T src d)};alias={b01 alias};src=1"
 
 def run (s : DState) (name : String) (args : List SExp) : Option String :=
   let env := s.env
